@@ -12,6 +12,7 @@
      from their own property files when present (C16, C12/Pktline). *)
 From HW Require Import lib.Base lib.SMap model.Gossip proofs.GossipProofs.
 From HW Require Import model.WireVarint model.WireFrame model.Deser proofs.DeserProofs.
+From HW Require model.FetchSched proofs.FetchSchedProofs.
 Local Open Scope N_scope.
 
 (* any sequence of events — connections, disconnections, ANY announcements
@@ -41,6 +42,14 @@ Theorem C13_frames_never_panic :
     snd (fst (deserialize_next inner_decode buf)) <> NPanic /\
     snd (fst (deserialize_next inner_decode buf)) <> NFuel.
 Proof. exact deserialize_next_total. Qed.
+
+(* fetch scheduling driven by announcements, commands, connects/disconnects and
+   late worker results, for every configuration, event sequence and shuffle
+   order: none of the assert!/panic!/debug_assert! sites of service.rs and
+   session.rs is reachable (property C16's model) *)
+Theorem C13_fetch_scheduling_never_panics :
+  forall cfg evs, exists st, FetchSched.run cfg evs = FetchSched.Ret st.
+Proof. exact FetchSchedProofs.no_panic. Qed.
 
 Example C13_example_zero_timestamp_disconnects :
   let c := mkCfg 0 true [] [] [] in
